@@ -416,6 +416,77 @@ example : Ctx.v0.WF ∧ 2 * (([[0xAC#8], [0x41#8]] : List (List Byte)).map List.
     ([[0xAC#8], [0x41#8]] : List (List Byte)).flatten.length + 2 ≤ 5 ∧
     5 ≤ (if (Sess.start 16 8).att then (Sess.start 16 8).recv.line.buf else (Sess.start 16 8).blk).length := by decide
 
+/-- RECEIVER CALLS ON ONE LONG-LIVED RECEIVER OBJECT: whatever the session did before (frames, garbage,
+half a frame, `reset()`, another alphabet, stale bytes in the receive block), after the receiver object is
+re-constructed from the context and given a buffer (`init(blk, cap)`, 1 ≤ cap ≤ |blk|), what it answers to a
+byte string and what it hands over depends only on (context CONTENTS at the re-construction, cap, the bytes):
+it is the list-level receiver started from `Recv.init cap`, to which every theorem of C05 applies -/
+theorem receiver_depends_only_on_contents (s1 s2 : Sess) (bs : List Byte) (cap : Nat) (hc : s1.ctx = s2.ctx)
+    (hcap : 1 ≤ cap) (hcap32 : cap < 2 ^ 32)
+    (hb1 : cap ≤ (if s1.att then s1.recv.line.buf else s1.blk).length)
+    (hb2 : cap ≤ (if s2.att then s2.recv.line.buf else s2.blk).length) :
+    (Sess.run s1 [.rnew, .rinit cap, .feed (some bs)]).2 = (Sess.run s2 [.rnew, .rinit cap, .feed (some bs)]).2 ∧
+    (Sess.run s1 [.rnew, .rinit cap, .feed (some bs)]).2 =
+      [.unit, .unit, .trace (feed s1.ctx (Recv.init cap) bs).2 (feedTrace s1.ctx (Recv.init cap) bs).2] := by
+  have hcapN : (BitVec.ofNat 32 cap).toNat = cap := by
+    simp only [BitVec.toNat_ofNat]; exact Nat.mod_eq_of_lt hcap32
+  have key : ∀ s : Sess, cap ≤ (if s.att then s.recv.line.buf else s.blk).length →
+      (Sess.run s [.rnew, .rinit cap, .feed (some bs)]).2 =
+        [.unit, .unit, .trace (feed s.ctx (Recv.init cap) bs).2 (feedTrace s.ctx (Recv.init cap) bs).2] := by
+    intro s hblk
+    generalize hb : (if s.att then s.recv.line.buf else s.blk) = blk0 at hblk
+    have hok : SlineOK (BRecv.init blk0 (BitVec.ofNat 32 cap)).line :=
+      ⟨rfl, by simp only [BRecv.init, Sline.init, hcapN]; exact hblk, by simp [BRecv.init, Sline.init]⟩
+    have habs : (BRecv.init blk0 (BitVec.ofNat 32 cap)).abs = Recv.init cap := by
+      simp [BRecv.abs, BRecv.init, Sline.init, Sline.bytes, Recv.init, hcapN]
+    obtain ⟨r', f1, _, _, _⟩ := bfeedS_eq s.ctx (BRecv.init blk0 (BitVec.ofNat 32 cap)) hok
+      (by simp only [BRecv.init, Sline.init, hcapN]; omega) bs
+    rw [habs] at f1
+    simp only [Sess.run, Sess.step, hb, Option.getD_some, if_false, Bool.false_eq_true, f1]
+  rw [key s1 hb1, key s2 hb2, hc]
+  exact ⟨rfl, rfl⟩
+
+-- non-vacuity: two different session states with the same context contents
+example : (Sess.start 16 8).ctx = ((Sess.start 32 8).step (.enc [[0x41#8]])).1.ctx ∧ (1 : Nat) ≤ 4 ∧
+    4 ≤ (if (Sess.start 16 8).att then (Sess.start 16 8).recv.line.buf else (Sess.start 16 8).blk).length := by decide
+
+/-- LEGACY ROUND TRIP IN A SESSION: from any session state, `gstuffing_v1` into the re-used buffer,
+`setbuf_v1(lblk, cap)` on the long-lived legacy struct (n + 2 ≤ cap ≤ |lblk|), feed: the `int` returned is the
+frame length, the answers are `C…CN`, the packet (line minus its CRC byte) is the payload -/
+theorem session_roundtrip_leg (s : Sess) (p : List Byte) (cap : Nat)
+    (hfit : 2 * p.length + 4 ≤ s.out.length)
+    (hcap : p.length + 2 ≤ cap) (hcap32 : cap < 2 ^ 32)
+    (hblk : cap ≤ (if s.latt then s.lrecv.line.buf else s.lblk).length) :
+    (Sess.run s [.encLeg p, .lsetbuf cap, .lfeed none]).2 =
+      [.frame (retInt (gstuffingLeg p).length) (gstuffingLeg p), .unit,
+       .trace (List.replicate ((gstuffingLeg p).length - 1) CONTINUE ++ [NEWPACKAGE]) [p]] := by
+  obtain ⟨o1, e1, e2, _, _⟩ := encoder_reused_buffer_leg p s.out hfit
+  generalize hb : (if s.latt then s.lrecv.line.buf else s.lblk) = blk0 at hblk
+  have hcapN : (BitVec.ofNat 32 cap).toNat = cap := by
+    simp only [BitVec.toNat_ofNat]; exact Nat.mod_eq_of_lt hcap32
+  have hok : SlineOK (BLRecv.init blk0 (BitVec.ofNat 32 cap)).line :=
+    ⟨rfl, by simp only [BLRecv.init, Sline.init, hcapN]; exact hblk, by simp [BLRecv.init, Sline.init]⟩
+  have habs : (BLRecv.init blk0 (BitVec.ofNat 32 cap)).abs = LRecv.init cap := by
+    simp [BLRecv.abs, BLRecv.init, Sline.init, Sline.bytes, LRecv.init, hcapN]
+  obtain ⟨r', f1, _, _, _⟩ := blfeedS_eq (BLRecv.init blk0 (BitVec.ofNat 32 cap)) hok
+    (by simp only [BLRecv.init, Sline.init, hcapN]; omega) (gstuffingLeg p)
+  rw [habs] at f1
+  obtain ⟨ss, r1, g1, g2, _, _, _, g6⟩ := roundtrip_leg_partial p cap hcap
+  have hl : ss.length = (gstuffingLeg p).length - 1 := by
+    have := lfeed_length (LRecv.init cap) (gstuffingLeg p)
+    rw [g1] at this
+    simp only [List.length_append, List.length_cons, List.length_nil] at this
+    omega
+  have hss : (lfeed (LRecv.init cap) (gstuffingLeg p)).2 =
+      List.replicate ((gstuffingLeg p).length - 1) CONTINUE ++ [NEWPACKAGE] := by
+    rw [g1, ← hl, ← allCont_eq_replicate g2]
+  rw [hss, g6] at f1
+  simp only [Sess.run, Sess.step, e1, e2, hb, Option.getD_none, f1]
+
+-- non-vacuity
+example : 2 * ([0xAC#8, 0x41#8] : List Byte).length + 4 ≤ (Sess.start 16 8).out.length ∧ ([0xAC#8, 0x41#8] : List Byte).length + 2 ≤ 5 ∧
+    5 ≤ (if (Sess.start 16 8).latt then (Sess.start 16 8).lrecv.line.buf else (Sess.start 16 8).lblk).length := by decide
+
 /-- THE LINEAR-TIME FORMS THE DRIVER RUNS ON THE ≥ 300 KiB INPUTS ARE THE MODEL: `encodeLin` is
 `gstuffingV` on one piece, `encodeLegLin` is `gstuffingLeg`; the receivers with the line kept reversed
 and its length cached (`feedR`, `lfeedR`) compute, from any state, the number of CONTINUE answers, the
